@@ -172,9 +172,9 @@ func (p Polynomial) EvaluateModP(xInt, PInt *big.Int) (yInt *big.Int) {
 		yInt.Add(yInt, p.Coeffs[i].Int())
 	}
 
-	if yInt.Cmp(new(big.Int)) == -1 {
-		yInt.Add(yInt, PInt)
-	}
+	// The last coefficient is added after the last reduction
+	// (big.Int.Mod returns a value in [0, P-1] also for negative inputs).
+	yInt.Mod(yInt, PInt)
 
 	return
 }
